@@ -17,6 +17,15 @@ class Wire:
         self.S = ctx.schema
         self.bundle = ctx.bundle
         self._n = {}
+        self.limits: list[str] = []
+
+    def finish(self, rep):
+        """Analysis limits met on the way: a verdict 'pass' is not available, but concrete findings stand."""
+        if self.limits:
+            if rep.findings:
+                rep.note(f"{len(self.limits)} codec(s) not understood (listed first: {self.limits[0]}); violations found elsewhere are reported")
+            else:
+                raise AnalysisError(self.limits[0] + (f" (+{len(self.limits) - 1} more)" if len(self.limits) > 1 else ""))
 
     def plan(self, key):
         p = self.bundle["classes"].get(key)
@@ -42,13 +51,23 @@ class Wire:
         while isinstance(x, dict):
             if x.get("k") == "opaque":
                 who = (d or {}).get("_codec", "?")
-                raise AnalysisError(f"codec {who} not understood: {x.get('reason')}")
+                msg = f"codec {who} not understood: {x.get('reason')}"
+                if msg not in self.limits:
+                    self.limits.append(msg)
+                return n
             x = x.get("item") or x.get("inner")
         return n
 
     def classes(self):
         for key in sorted(self.S.classes):
-            yield key, self.S.classes[key], self.plan(key)
+            p = self.plan(key)
+            err = p.get("error")
+            if err and err.get("side") == "analysis":
+                msg = f"plan of {key} not understood: {err.get('msg')}"
+                if msg not in self.limits:
+                    self.limits.append(msg)
+                continue
+            yield key, self.S.classes[key], p
 
     def is_client_id(self, cls, f):
         m = self.S.modules[cls["module"]]
@@ -86,3 +105,49 @@ class Wire:
 def fdesc(cls, f):
     md = f.get("metadata") or {}
     return f"{cls['key']}.{f['name']}: {show_type(f['type'])} {md}"
+
+
+def spec_tagged_default_term(ctx, cls_key: str, field_name: str):
+    """JSON term of the value an absent tagged field stands for according to the message-definition
+    semantics: its explicit default if it has one; otherwise the zero value of a primitive, and for a
+    struct an instance whose members take *their* declared defaults (or zero values).  Computed here
+    from the schema model -- independently of kio's get_tagged_field_default.  None = not covered."""
+    from ..interp_base import Raised, Limit
+    from ..plans import jsonable
+    from ..values import ClassV, LibClass, InstV, MISSING, UnionV, GenericV, term_of
+    I = ctx.interp
+
+    def zero(t):
+        if isinstance(t, UnionV) or isinstance(t, GenericV):
+            return None
+        if isinstance(t, ClassV) and (t.entity is not None):
+            attrs = {}
+            for f in I.fields_of(t):
+                d = I.field_default(f)
+                if d is MISSING:
+                    d = zero(f.type)
+                    if d is None:
+                        return None
+                    d = d[0]
+                attrs[f.name] = d
+            return (InstV(t, attrs, frozen=True),)
+        if isinstance(t, ClassV):
+            for c in t.mro:
+                if isinstance(c, LibClass) and c.name in ("int", "float", "str", "bytes"):
+                    return ({"int": 0, "float": 0.0, "str": "", "bytes": b""}[c.name],)
+            return None
+        if isinstance(t, LibClass) and t.name in ("int", "float", "str", "bytes", "bool"):
+            return ({"int": 0, "float": 0.0, "str": "", "bytes": b"", "bool": False}[t.name],)
+        return None
+    try:
+        cls = I.entity_class(cls_key)
+        f = next(x for x in I.fields_of(cls) if x.name == field_name)
+        d = I.field_default(f)
+        if d is MISSING:
+            z = zero(f.type)
+            if z is None:
+                return None
+            d = z[0]
+        return jsonable(term_of(d))
+    except (Raised, Limit, StopIteration):
+        return None
